@@ -139,316 +139,562 @@ SPACE_D = {"segment.position", "segment.data_position", "segment.next_segment_po
 SPACE_I = {"start_position"}
 
 
-def _vec(e):
-    """(coefficient of index-stream offsets, coefficient of data-file offsets) or None"""
-    d = dotted(e)
-    if d in SPACE_D:
-        return (0, 1)
-    if d in SPACE_I:
+IDX_IS_NONE = ("cmp", "is", ("self", "_index_file"), ("const", None))
+DATA_IS_NONE = ("cmp", "is", ("self", "_file"), ("const", None))
+
+
+def _mode_oracle(index_mode, data_open=None):
+    """decides `self._index_file is None` (and optionally `self._file is None`) for one parsing mode"""
+    def oracle(c):
+        if c == IDX_IS_NONE:
+            return not index_mode
+        if c == ("self", "_index_file"):
+            return True if index_mode else False
+        if data_open is not None:
+            if c == DATA_IS_NONE:
+                return not data_open
+            if c == ("self", "_file"):
+                return True if data_open else False
+        return None
+    return oracle
+
+
+D_ATTRS = ("position", "data_position", "next_segment_pos")   # data-file offsets carried by a parsed segment (typed by CO1's lead-in clause)
+
+
+def _svec(x, stream):
+    """(coefficient of offsets in the stream being parsed, coefficient of data-file offsets) of a canonical value, or None"""
+    if not isinstance(x, tuple) or not x:
+        return None
+    if x[0] == "method" and x[1] == "tell" and x[2] == stream:
         return (1, 0)
-    if isinstance(e, ast.Constant) and isinstance(e.value, int):
+    if x[0] == "attr" and x[2] in D_ATTRS:
+        return (0, 1)
+    if x == ("self", "_data_file_size"):
+        return (0, 1)
+    if x[0] == "const" and isinstance(x[1], int) and not isinstance(x[1], bool):
         return (0, 0)
-    if isinstance(e, ast.BinOp) and isinstance(e.op, (ast.Add, ast.Sub)):
-        a, b = _vec(e.left), _vec(e.right)
-        if a is None or b is None:
+    if x[0] == "binop" and x[1] in ("+", "-"):
+        vs = [_svec(t, stream) for t in x[2]]
+        if any(v is None for v in vs):
             return None
-        sgn = 1 if isinstance(e.op, ast.Add) else -1
-        return (a[0] + sgn * b[0], a[1] + sgn * b[1])
+        a, b = vs[0]
+        for v in vs[1:]:
+            sgn = 1 if x[1] == "+" else -1
+            a, b = a + sgn * v[0], b + sgn * v[1]
+        return (a, b)
     return None
 
 
-def _space(e):
-    """'D' data-file offset, 'I' offset in the stream being parsed, 'L' length, 'X' ill-typed, None unknown"""
-    v = _vec(e)
-    if v is None:
-        return None
-    return {(1, 0): "I", (0, 1): "D", (0, 0): "L"}.get(v, "X")
+def _lead_in_call(ctx, fi):
+    """the call of the segment metadata parser in read_metadata"""
+    from .flow import resolve_call
+    for c in walk_body(fi.node):
+        if isinstance(c, ast.Call):
+            for f, _k in resolve_call(ctx.prog, fi, fi.cls, c):
+                if f.qual == "reader.TdmsReader._read_segment_metadata":
+                    return c
+    raise AnchorMissing("reader.TdmsReader.read_metadata: call of _read_segment_metadata")
 
 
 @rule("CO1", "while parsing the index stream every seek target is an index-stream offset; the next lead-in is reached in every iteration", floor=4)
 def co1(ctx, R):
+    from .sym import Sym, simplify, eval_cond, show
     prog = ctx.prog
     fi = prog.func("reader.TdmsReader.read_metadata")
     cfg = ctx.cfg(fi)
-    # start_position is file.tell() in the loop
-    sp = [n for n in walk_body(fi.node) if isinstance(n, ast.Assign) and dotted(n.targets[0]) == "start_position"]
-    R.check(bool(sp) and unparse(sp[0].value) == "file.tell()", "reader.TdmsReader.read_metadata::start_position", fi.where(),
-            "start of the lead-in in the stream being parsed", "start_position is no longer file.tell() at the start of the lead-in")
-    from .rules_resource import _controlling_tests
-    seeks = cfg.where(lambda n: any(call_name(c) == "file.seek" for c in node_calls(n)))
-    if len(seeks) < 2:
-        # maybe one unconditional seek with a conditional target
-        pass
-    for s in seeks:
-        c = [c for c in node_calls(s) if call_name(c) == "file.seek"][0]
-        tests = _controlling_tests(cfg, s)
-        on_index = any(unparse(t.ast) == "reading_index_file" for t in tests)
-        # false branch of the same test?
-        on_data = not on_index and any(unparse(t.ast) == "reading_index_file" for t in cfg.where(lambda n: n.kind == "test"))
-        sp_ = _space(c.args[0])
-        whence_ok = len(c.args) == 1 or dotted(c.args[1]) in ("os.SEEK_SET",) or (isinstance(c.args[1], ast.Constant) and c.args[1].value == 0)
-        key = "reader.TdmsReader.read_metadata::seek(%s)" % unparse(c.args[0])[:60]
-        if not whence_ok:
-            R.violation(key, fi.where(c), "relative seek between segments")
-            continue
-        if on_index:
-            if sp_ == "I":
-                R.ok(key, fi.where(c), "index branch: index-stream offset (lead-in start + metadata length)")
-            elif sp_ in ("D", "X"):
-                R.violation(key, fi.where(c), "while reading from the index file the stream is positioned at `%s`, an offset in the DATA file: "
-                            "index and data offsets differ by the raw data of all earlier segments" % unparse(c.args[0]))
-            else:
-                R.undecided(key, fi.where(c), "coordinate space of the seek target not understood")
-        else:
-            if sp_ == "D":
-                R.ok(key, fi.where(c), "data-file branch: data-file offset of the next segment")
-            elif sp_ in ("I", "X"):
-                R.violation(key, fi.where(c), "the data file is positioned at `%s`, which is not a data-file offset" % unparse(c.args[0]))
-            else:
-                R.undecided(key, fi.where(c), "coordinate space of the seek target not understood")
-    # MS1: from the append of a parsed segment every path back to the loop head passes an absolute seek of the stream
-    app = cfg.where(lambda n: any(call_name(c) == "self._segments.append" for c in node_calls(n)))
+    sy = Sym(prog, fi, fi.cls)
+    rc = _lead_in_call(ctx, fi)
+    env, _g = sy.env_at(rc)
+    if not rc.args:
+        raise AnchorMissing("reader.TdmsReader.read_metadata: stream argument of _read_segment_metadata")
+    stream = sy.expr(rc.args[0], env)
+    # which stream is parsed in which mode
+    for mode, want in ((True, ("self", "_index_file")), (False, ("self", "_file"))):
+        got = simplify(stream, _mode_oracle(mode, data_open=True))
+        R.check(got == want, "reader.TdmsReader.read_metadata::stream parsed when the index file is %s" % ("present" if mode else "absent"), fi.where(rc),
+                "parses %s" % show(got), "the stream handed to the lead-in parser is `%s`, expected %s" % (show(got), show(want)))
+    # position in the stream being parsed, taken before the lead-in is read in the same iteration
     heads = cfg.where(lambda n: n.kind == "test" and n.label == "while")
-    if not app or not heads:
+    rcn = cfg.where(lambda n: any(c is rc for c in node_calls(n)))
+    if not heads or not rcn:
         raise AnchorMissing("reader.TdmsReader.read_metadata: segment loop")
-    through = lambda n: any(call_name(c) == "file.seek" for c in node_calls(n))
-    r = cfg.reach(app, avoid=through, follow_exc=False)
+    after = cfg.reach([m for n in rcn for m, k in n.succ if k not in ("exc", "uncaught")], avoid=lambda n: n in heads, follow_exc=False)
+    tells = []
+    for n in cfg.nodes:
+        for c in node_calls(n):
+            if isinstance(c.func, ast.Attribute) and c.func.attr == "tell":
+                e2, _ = sy.env_at(c)
+                if sy.expr(c.func.value, e2) == stream:
+                    tells.append((n, c))
+    R.check(bool(tells) and all(n not in after for n, c in tells), "reader.TdmsReader.read_metadata::lead-in start", fi.where(tells[0][1]) if tells else fi.where(),
+            "the stream position is taken before the lead-in is read", "the stream position used for the next seek is not taken at the start of the lead-in "
+            "(it is read after the segment metadata has been parsed, or not at all)")
+    # seeks of the parsed stream
+    seeks = []
+    for n in cfg.nodes:
+        for c in node_calls(n):
+            if isinstance(c.func, ast.Attribute) and c.func.attr == "seek" and c.args:
+                e2, g2 = sy.env_at(c)
+                if sy.expr(c.func.value, e2) == stream:
+                    seeks.append((n, c, sy.expr(c.args[0], e2), g2))
+    if not seeks:
+        raise AnchorMissing("reader.TdmsReader.read_metadata: seek of the parsed stream")
+    for n, c, tgt, guards in seeks:
+        whence_ok = len(c.args) == 1 or dotted(c.args[1]) in ("os.SEEK_SET",) or prog.try_fold(c.args[1], fi.module, default="?") == 0
+        for mode in (True, False):
+            orc = _mode_oracle(mode, data_open=True)
+            if any(eval_cond(g, orc) is False for g in guards):
+                continue
+            t = simplify(tgt, orc)
+            st = simplify(stream, orc)
+            key = "reader.TdmsReader.read_metadata::seek target while parsing the %s" % ("index stream" if mode else "data file")
+            if not whence_ok:
+                R.violation(key, fi.where(c), "relative seek between segments")
+                continue
+            v = _svec(t, st)
+            if v is None:
+                R.undecided(key, fi.where(c), "coordinate space of `%s` not understood" % show(t)[:120])
+            elif mode:
+                R.check(v == (1, 0), key, fi.where(c), "index-stream offset (lead-in start + metadata length): %s" % show(t)[:100],
+                        "while reading from the index file the stream is positioned at `%s`, which is not an offset in the index stream: "
+                        "index and data offsets differ by the raw data of all earlier segments" % show(t)[:160])
+            else:
+                R.check(v[0] + v[1] == 1, key, fi.where(c), "data-file offset of the next segment: %s" % show(t)[:100],
+                        "the data file is positioned at `%s`, which is not a data-file offset" % show(t)[:160])
+    # from the append of a parsed segment every path back to the loop head passes a seek of the stream
+    app = cfg.where(lambda n: any(call_name(c) == "self._segments.append" for c in node_calls(n))) or rcn
+    seek_nodes = {n for n, c, t, g in seeks}
+    r = cfg.reach([m for a in app for m, k in a.succ if k not in ("exc", "uncaught")], avoid=lambda n: n in seek_nodes, follow_exc=False)
     R.check(not any(h in r for h in heads), "reader.TdmsReader.read_metadata::next lead-in reached on every iteration", fi.where(app[0].ast),
             "every iteration ends with a seek to the next lead-in", "on some path the loop continues without positioning the stream at the next "
-            "lead-in (e.g. only for segments that have metadata): the next 28 bytes parsed are not a lead-in",
-            )
-    # segment_position handed to the lead-in parser is the data-file position of the next segment
-    spd = [n for n in walk_body(fi.node) if isinstance(n, ast.Assign) and dotted(n.targets[0]) == "segment_position" and not isinstance(n.value, ast.Constant)]
-    R.check(bool(spd) and all(_space(n.value) == "D" for n in spd), "reader.TdmsReader.read_metadata::segment_position", fi.where(),
-            "segment positions are data-file offsets in both modes", "segment_position is updated from `%s`" % (unparse(spd[0].value) if spd else None))
-    li = prog.func("reader.TdmsReader._read_lead_in")
-    cmps = [x for x in walk_body(li.node) if isinstance(x, ast.Compare) and "_data_file_size" in unparse(x) and not isinstance(x.ops[0], (ast.Is, ast.IsNot))]
-    for x in cmps:
-        others = [o for o in [x.left] + list(x.comparators) if "_data_file_size" not in unparse(o)]
-        R.check(all(_space(o) in ("D",) for o in others), "reader.TdmsReader._read_lead_in::clamp `%s`" % unparse(x)[:50], li.where(x),
-                "segment end (data-file offset) is clamped against the data file's size", "the data file size is compared with `%s`, which is not a "
-                "data-file offset" % ", ".join(unparse(o) for o in others))
-    gfs = [n for n in walk_body(prog.func("reader.TdmsReader.__init__").node) if isinstance(n, ast.Assign) and dotted(n.targets[0]) == "self._data_file_size"]
-    ok = all((isinstance(n.value, ast.Constant) and n.value.value is None) or (isinstance(n.value, ast.Call) and n.value.args and dotted(n.value.args[0]) == "self._file") for n in gfs)
-    R.check(bool(gfs) and ok, "reader.TdmsReader.__init__::_data_file_size from the data file", prog.func("reader.TdmsReader.__init__").where(),
+            "lead-in (e.g. only for segments that have metadata): the next 28 bytes parsed are not a lead-in")
+    # the segment position handed to the lead-in parser is a data-file offset in both modes: its loop-carried update
+    callee = prog.func("reader.TdmsReader._read_segment_metadata")
+    pname = callee.params[2] if len(callee.params) > 2 else None
+    parg = rc.args[1] if len(rc.args) > 1 else next((k.value for k in rc.keywords if k.arg == pname), None)
+    upd = []
+    if isinstance(parg, ast.Name):
+        for n in cfg.nodes:
+            if n in after and n.kind == "stmt" and isinstance(n.ast, ast.Assign) and any(dotted(t) == parg.id for t in n.ast.targets):
+                e2, _ = sy.env_at(n.ast)
+                upd.append((n, sy.expr(n.ast.value, e2)))
+    ok = bool(upd) and all(_svec(simplify(v, _mode_oracle(m, True)), simplify(stream, _mode_oracle(m, True))) == (0, 1) for n, v in upd for m in (True, False))
+    R.check(ok, "reader.TdmsReader.read_metadata::segment position", fi.where(upd[0][0].ast) if upd else fi.where(rc),
+            "segment positions are data-file offsets in both modes", "the segment position passed to the lead-in parser is updated from `%s`, "
+            "which is not the data-file offset of the next segment" % (show(upd[0][1])[:120] if upd else None))
+    # clamp: the data file size is compared with data-file offsets only
+    n_cmp = 0
+    for qual in sorted("reader.TdmsReader." + m for m in prog.cls("reader.TdmsReader").methods):
+        li = prog.func(qual)
+        if not any(isinstance(x, ast.Attribute) and x.attr == "_data_file_size" for x in ast.walk(li.node)):
+            continue
+        sl = Sym(prog, li, li.cls, inline=False)
+        for x in walk_body(li.node):
+            if isinstance(x, ast.Compare) and len(x.ops) == 1 and not isinstance(x.ops[0], (ast.Is, ast.IsNot, ast.Eq, ast.NotEq)):
+                e2, _ = sl.env_at(x)
+                l, r_ = sl.expr(x.left, e2), sl.expr(x.comparators[0], e2)
+                if ("self", "_data_file_size") not in (l, r_):
+                    continue
+                n_cmp += 1
+                other = r_ if l == ("self", "_data_file_size") else l
+                v = _lead_in_vec(other, li)
+                R.check(v == (0, 1), "%s::clamp against the data file size" % qual, li.where(x),
+                        "segment end (data-file offset) is clamped against the data file's size", "the data file size is compared with `%s`, which is not a "
+                        "data-file offset" % show(other)[:120])
+    if n_cmp < 1:
+        raise AnchorMissing("reader.TdmsReader: comparison of a segment end with _data_file_size")
+    # _data_file_size is measured on the data stream
+    init = prog.func("reader.TdmsReader.__init__")
+    si = Sym(prog, init, init.cls, inline=False)
+    stores = [n for n in walk_body(init.node) if isinstance(n, ast.Assign) and any(dotted(t) == "self._data_file_size" for t in n.targets)]
+    ok = bool(stores)
+    for n in stores:
+        e2, _ = si.env_at(n)
+        v = si.expr(n.value, e2)
+        leaves = []
+
+        def walk(v):
+            if isinstance(v, tuple) and v and v[0] == "phi":
+                walk(v[2]); walk(v[3])
+            else:
+                leaves.append(v)
+        walk(v)
+        for lf in leaves:
+            if lf == ("const", None):
+                continue
+            if isinstance(lf, tuple) and lf[0] == "call" and lf[2] and lf[2][0] == ("self", "_file"):
+                continue
+            ok = False
+    R.check(ok, "reader.TdmsReader.__init__::_data_file_size from the data file", init.where(),
             "size is taken from the data stream only", "the size used for clamping is taken from another stream than the data file")
+
+
+def _lead_in_vec(x, li):
+    """space of a canonical value inside the lead-in parser: the segment_position parameter and the data file size are
+    data-file offsets, everything unpacked from the lead-in is a length"""
+    if not isinstance(x, tuple) or not x:
+        return None
+    if x[0] == "param":
+        return (0, 1) if "position" in x[1] or x[1].endswith("_pos") else (0, 0)
+    if x == ("self", "_data_file_size"):
+        return (0, 1)
+    if x[0] == "const" and isinstance(x[1], int):
+        return (0, 0)
+    if x[0] in ("item", "call", "method", "bv", "unpack"):
+        return (0, 0)
+    if x[0] == "binop" and x[1] in ("+", "-"):
+        vs = [_lead_in_vec(t, li) for t in x[2]]
+        if any(v is None for v in vs):
+            return None
+        a, b = vs[0]
+        for v in vs[1:]:
+            sgn = 1 if x[1] == "+" else -1
+            a, b = a + sgn * v[0], b + sgn * v[1]
+        return (a, b)
+    if x[0] == "binop" and x[1] == "*":
+        vs = [_lead_in_vec(t, li) for t in x[2]]
+        return (0, 0) if all(v == (0, 0) for v in vs) else None
+    return None
 
 
 @rule("DF1", "index-vs-data mode is passed explicitly to the lead-in parser and selects the expected tag", floor=3)
 def df1(ctx, R):
+    from .sym import Sym, simplify, eval_cond, show
+    from .flow import resolve_call
     prog = ctx.prog
-    li = prog.func("reader.TdmsReader._read_lead_in")
-    rsm = prog.func("reader.TdmsReader._read_segment_metadata")
     rm = prog.func("reader.TdmsReader.read_metadata")
-    flag = [p for p in li.params if "index" in p]
-    if not flag:
-        raise AnchorMissing("reader.TdmsReader._read_lead_in: is_index_file parameter")
-    flag = flag[0]
-    calls = [c for c in walk_body(rsm.node) if isinstance(c, ast.Call) and call_name(c) == "self._read_lead_in"]
-    pos = li.params.index(flag) - 1
-    for c in calls:
-        arg = c.args[pos] if len(c.args) > pos else next((k.value for k in c.keywords if k.arg == flag), None)
-        R.check(arg is not None and isinstance(arg, ast.Name) and arg.id in rsm.params, "reader.TdmsReader._read_segment_metadata::%s passed" % flag, rsm.where(c),
-                "mode flag forwarded", "_read_lead_in is called without the index/data mode flag (default: data file): index files would be rejected or "
-                "data files accepted with the wrong tag")
-    calls = [c for c in walk_body(rm.node) if isinstance(c, ast.Call) and call_name(c) == "self._read_segment_metadata"]
-    rp = [p for p in rsm.params if "index_file" in p]
-    for c in calls:
-        pos2 = rsm.params.index(rp[0]) - 1 if rp else None
-        arg = c.args[pos2] if pos2 is not None and len(c.args) > pos2 else None
-        R.check(arg is not None and dotted(arg) == "reading_index_file", "reader.TdmsReader.read_metadata::mode flag", rm.where(c),
-                "reading_index_file forwarded", "read_metadata does not forward which stream it is parsing")
-    tags = [x for x in walk_body(li.node) if isinstance(x, ast.IfExp) and dotted(x.test) == flag]
-    ok = bool(tags) and prog.try_fold(tags[0].body) == b"TDSh" and prog.try_fold(tags[0].orelse) == b"TDSm"
-    R.check(ok, "reader.TdmsReader._read_lead_in::expected tag", li.where(), "TDSh for the index stream, TDSm for the data stream",
-            "expected tag is not selected by the mode flag")
-    # reading_index_file is True exactly on the branch that selected self._index_file
+    rsm = prog.func("reader.TdmsReader._read_segment_metadata")
+    li = prog.func("reader.TdmsReader._read_lead_in")
+    # the expected tag inside the lead-in parser, as a function of its parameters
+    sl = Sym(prog, li, li.cls, inline=True)
+    tagcmp = None
+    for x in walk_body(li.node):
+        if isinstance(x, ast.Compare) and len(x.ops) == 1 and isinstance(x.ops[0], (ast.Eq, ast.NotEq)):
+            e2, _ = sl.env_at(x)
+            c = sl.expr(x, e2)
+            for side in (c[2], c[3]):
+                consts = [y for y in _leaves(side)]
+                if consts and all(y[0] == "const" and isinstance(y[1], bytes) and y[1] in (b"TDSh", b"TDSm") for y in consts):
+                    tagcmp = (x, side)
+    if tagcmp is None:
+        raise AnchorMissing("reader.TdmsReader._read_lead_in: comparison of the tag with TDSh/TDSm")
+    x, expected = tagcmp
+    flags = sorted({y[1] for y in _collect_params(expected)})
+    if not flags:
+        R.violation("reader.TdmsReader._read_lead_in::expected tag", li.where(x), "the expected tag `%s` does not depend on which stream is parsed: index files would be "
+                    "rejected or data files accepted with the wrong tag" % show(expected))
+        return
+    flag = flags[0]
+
+    def tag_for(value):
+        def orc(c):
+            if c == ("param", flag):
+                return value
+            return None
+        return simplify(expected, orc)
+    R.check(tag_for(True) == ("const", b"TDSh") and tag_for(False) == ("const", b"TDSm"), "reader.TdmsReader._read_lead_in::expected tag", li.where(x),
+            "TDSh for the index stream, TDSm for the data stream", "the expected tag is %s for the index stream and %s for the data file" % (show(tag_for(True)), show(tag_for(False))))
+    # the tag comparison decides raise / continue
+    cfg = ctx.cfg(li)
+    tn = cfg.where(lambda n: n.kind == "test" and any(y is x for y in ast.walk(n.ast)))
     ok = False
-    for n in rm.node.body:
-        if isinstance(n, ast.If) and "self._index_file is not None" in unparse(n.test):
-            body = " ".join(unparse(s) for s in n.body)
-            ok = "file = self._index_file" in body and "reading_index_file = True" in body
-            if n.orelse and isinstance(n.orelse[0], ast.If):
-                b2 = " ".join(unparse(s) for s in n.orelse[0].body)
-                ok = ok and "file = self._file" in b2 and "reading_index_file = False" in b2
-    R.check(ok, "reader.TdmsReader.read_metadata::stream selection", rm.where(), "index stream preferred; flag set together with the stream",
-            "the mode flag is not set together with the stream it describes")
+    for t in tn:
+        mismatch = "true" if isinstance(x.ops[0], ast.NotEq) else "false"
+        succ = [m for m, k in t.succ if k == mismatch]
+        r = cfg.reach(succ, follow_exc=False)
+        ok = ok or (cfg.exit not in r and all(m is not cfg.exit for m in succ))
+    R.check(ok, "reader.TdmsReader._read_lead_in::tag mismatch raises", li.where(x), "a segment with another tag is rejected",
+            "a lead-in whose tag differs from the expected one is accepted")
+    # the flag reaches the lead-in parser from read_metadata: value of the flag parameter as a function of read_metadata's state
+    srm = Sym(prog, rsm, rsm.cls, inline=False)
+    lcall = None
+    for c in walk_body(rsm.node):
+        if isinstance(c, ast.Call) and any(f.qual == li.qual for f, _k in resolve_call(prog, rsm, rsm.cls, c)):
+            lcall = c
+    if lcall is None:
+        raise AnchorMissing("reader.TdmsReader._read_segment_metadata: call of _read_lead_in")
+
+    def arg_of(call, callee, pname, sy, env):
+        ps = [p for p in callee.params if p not in ("self", "cls")]
+        i = ps.index(pname)
+        if len(call.args) > i:
+            return sy.expr(call.args[i], env)
+        for k in call.keywords:
+            if k.arg == pname:
+                return sy.expr(k.value, env)
+        d = callee.node.args.defaults
+        names = [a.arg for a in callee.node.args.args]
+        off = len(names) - len(d)
+        j = names.index(pname) - off
+        if j >= 0:
+            return sy.expr(d[j], {})
+        return None
+    e2, _ = srm.env_at(lcall)
+    inner = arg_of(lcall, li, flag, srm, e2)
+    rc = _lead_in_call(ctx, rm)
+    sy = Sym(prog, rm, rm.cls)
+    e3, _ = sy.env_at(rc)
+    stream = sy.expr(rc.args[0], e3) if rc.args else None
+    for mode in (True, False):
+        orc = _mode_oracle(mode, data_open=True)
+        val = inner
+        for p in _collect_params(inner or ()):
+            outer = arg_of(rc, rsm, p[1], sy, e3)
+            val = _subst(val, p, outer)
+        got = eval_cond(val, orc) if val is not None else None
+        if got is None and val is not None and val[0] == "const":
+            got = bool(val[1])
+        st = simplify(stream, orc)
+        key = "reader.TdmsReader.read_metadata::mode flag when parsing %s" % ("the index stream" if mode else "the data file")
+        if got is None:
+            R.undecided(key, rm.where(rc), "value of the mode flag `%s` not decided" % show(val)[:100])
+        else:
+            R.check(got == mode and st == (("self", "_index_file") if mode else ("self", "_file")), key, rm.where(rc),
+                    "flag %s together with stream %s" % (got, show(st)),
+                    "while parsing %s the lead-in parser is told is_index_file=%s: %s" % (show(st), got,
+                    "index files would be rejected or data files accepted with the wrong tag"))
 
 
-def _last_store_values(cfg, attr, assume):
-    """Constant values of the last store to self.<attr> on each acyclic path from entry to the normal exit."""
-    results = set()
-    seen_paths = [0]
+def _leaves(v):
+    if isinstance(v, tuple) and v and v[0] == "phi":
+        return _leaves(v[2]) + _leaves(v[3])
+    return [v]
 
-    def walk(node, last, visited):
-        seen_paths[0] += 1
-        if seen_paths[0] > 20000:
-            return
-        if node is cfg.exit:
-            results.add(last)
-            return
-        if node.id in visited:
-            return
-        visited = visited | {node.id}
-        if node.kind == "stmt" and isinstance(node.ast, ast.Assign):
-            for t in node.ast.targets:
-                if isinstance(t, ast.Attribute) and dotted(t.value) == "self" and t.attr == attr:
-                    v = node.ast.value
-                    last = v.value if isinstance(v, ast.Constant) else ("expr", unparse(v))
-        known = assume(node) if node.kind == "test" else None
-        for m, k in node.succ:
-            if k in ("exc", "uncaught"):
-                continue
-            if known is True and k == "false":
-                continue
-            if known is False and k == "true":
-                continue
-            walk(m, last, visited)
-    walk(cfg.entry, "<unset>", frozenset())
-    return results
+
+def _collect_params(v):
+    from .sym import collect
+    return collect(v, lambda y: isinstance(y, tuple) and len(y) == 2 and y[0] == "param")
+
+
+def _subst(v, old, new):
+    if v == old:
+        return new
+    if isinstance(v, tuple):
+        return tuple(_subst(y, old, new) for y in v)
+    return v
 
 
 @rule("MP4", "no data is ever returned when only an index file is open", floor=4)
 def mp4(ctx, R):
+    from .sym import Sym, simplify, eval_cond, show
+    from .rules_resource import construct, READER_SCENARIOS
+    from .region import nodes_reaching
     prog = ctx.prog
     iio = prog.func("reader.TdmsReader.is_index_file_only")
-    rets = [n for n in walk_body(iio.node) if isinstance(n, ast.Return) and n.value is not None]
-    if not rets:
-        raise AnchorMissing("reader.TdmsReader.is_index_file_only: return")
-    init = prog.func("reader.TdmsReader.__init__")
-    scen = {
-        "stream holding an index (TDSh)": ({"hasattr": True, "TDSh": True, "TDSm": False}, True),
-        "stream holding data (TDSm)": ({"hasattr": True, "TDSh": False, "TDSm": True}, False),
-        "path of a .tdms_index file": ({"hasattr": False, "endswith": True}, True),
-        "path of a .tdms file without index": ({"hasattr": False, "endswith": False, "isfile": False}, False),
-        "path of a .tdms file with an index beside it": ({"hasattr": False, "endswith": False, "isfile": True}, False),
-    }
-    icfg = CFG(init.node, may_raise=lambda n: n.kind == "raisestmt")
-    for name, (ans, want) in scen.items():
-        def assume(node, ans=ans):
-            t = unparse(node.ast)
-            if "hasattr(" in t:
-                return ans["hasattr"]
-            if "TDSh" in t and "==" in t:
-                return ans.get("TDSh")
-            if "TDSm" in t and "==" in t:
-                return ans.get("TDSm")
-            if "endswith" in t:
-                return ans.get("endswith")
-            if "isfile" in t:
-                return ans.get("isfile")
-            return None
-        # facts after construction
-        facts = {}
-        for attr in ("_file", "_index_file"):
-            vals = _last_store_values(icfg, attr, assume)
-            nullness = {NONE if v is None else NOTNONE for v in vals if v != "<unset>"}
-            if len(nullness) == 1:
-                facts["self." + attr] = nullness.pop()
-        # boolean flag attributes referenced by the predicate
-        for x in ast.walk(rets[0].value):
-            if isinstance(x, ast.Attribute) and dotted(x.value) == "self" and ("self." + x.attr) not in facts:
-                vals = _last_store_values(icfg, x.attr, assume)
-                consts = {v for v in vals if isinstance(v, bool)}
-                if len(vals) == 1 and len(consts) == 1:
-                    facts["self." + x.attr] = consts.pop()
-        # in the .tdms path scenario _index_file may or may not be set; _file is set
-        got = eval_test(rets[0].value, facts)
+    pred = Sym(prog, iio, iio.cls).function_value()
+    if pred[0] == "opaque":
+        raise AnchorMissing("reader.TdmsReader.is_index_file_only: simple predicate")
+    want = {"stream holding an index (TDSh)": True, "stream holding data (TDSm)": False, "path of a .tdms_index file": True,
+            "path of a .tdms file without index": False, "path of a .tdms file with an index beside it": False}
+    n = 0
+    for name, scn in READER_SCENARIOS:
+        if name not in want:
+            raise AnchorMissing("constructor scenario %s" % name)
+        finals = construct(prog, "reader.TdmsReader", scn)
         key = "reader.TdmsReader.is_index_file_only::%s" % name
-        if got is None:
-            R.undecided(key, iio.where(), "predicate `%s` not decidable from the constructor's stores (%s)" % (unparse(rets[0].value), facts))
-        else:
-            R.check(got == want, key, iio.where(), "evaluates to %s" % got,
-                    "for a %s the constructor leaves %s and is_index_file_only() evaluates to %s (expected %s): %s" % (
-                        name, facts, got, want, "data reads are not refused / reading is not forced to metadata only" if want else "a data file is treated as index-only"))
+        if not finals:
+            R.undecided(key, iio.where(), "constructor outcome not determined for this input")
+            continue
+        n += 1
+        for st in finals:
+            facts = {nm: v for (k, nm, v) in st if k == "null"}
+            bools = {nm: v for (k, nm, v) in st if k == "bool"}
+
+            def orc(c, facts=facts, bools=bools):
+                if isinstance(c, tuple) and c and c[0] == "self" and ("self." + c[1]) in bools:
+                    return bools["self." + c[1]]
+                if isinstance(c, tuple) and c and c[0] == "cmp" and c[1] == "is" and c[3] == ("const", None) and c[2][0] == "self":
+                    f = facts.get("self." + c[2][1])
+                    return None if f is None else (f == "none")
+                if isinstance(c, tuple) and c and c[0] == "self":
+                    f = facts.get("self." + c[1])
+                    if f == "none":
+                        return False
+                return None
+            got = eval_cond(pred, orc)
+            if got is None:
+                R.undecided(key, iio.where(), "predicate `%s` not decidable from the constructor's stores (%s)" % (show(pred)[:80], dict(facts, **bools)))
+            else:
+                R.check(got == want[name], key, iio.where(), "evaluates to %s" % got,
+                        "for a %s the constructor leaves %s and is_index_file_only() evaluates to %s (expected %s): %s" % (
+                            name, dict(facts, **bools), got, want[name],
+                            "data reads are not refused / reading is not forced to metadata only" if want[name] else "a data file is treated as index-only"))
+    if n < 4:
+        raise AnchorMissing("reader.TdmsReader.__init__: constructor scenarios (decided %d)" % n)
+    IIO = lambda c: isinstance(c, tuple) and c and c[0] in ("method", "call") and "is_index_file_only" in str(c[1])
     fi = prog.func("tdms.TdmsFile.__init__")
-    call = [c for c in walk_body(fi.node) if isinstance(c, ast.Call) and call_name(c) == "self._read_file"]
-    ok = bool(call) and len(call[0].args) >= 2 and isinstance(call[0].args[1], ast.IfExp) and "is_index_file_only()" in unparse(call[0].args[1].test) \
-        and prog.try_fold(call[0].args[1].orelse) is True
+    sy = Sym(prog, fi, fi.cls)
+    from .flow import resolve_call
+    call = [c for c in walk_body(fi.node) if isinstance(c, ast.Call) and any(f.qual == "tdms.TdmsFile._read_file" for f, _k in resolve_call(prog, fi, fi.cls, c))]
+    ok = False
+    if call:
+        callee = prog.func("tdms.TdmsFile._read_file")
+        ps = [p for p in callee.params if p != "self"]
+        i = next((k for k, p in enumerate(ps) if "metadata_only" in p), 1)
+        e2, _ = sy.env_at(call[0])
+        arg = call[0].args[i] if len(call[0].args) > i else next((k.value for k in call[0].keywords if k.arg == ps[i]), None)
+        v = sy.expr(arg, e2) if arg is not None else None
+        if v is not None:
+            forced = simplify(v, lambda c: True if IIO(c) else None)
+            free = simplify(v, lambda c: False if IIO(c) else None)
+            t = eval_cond(forced, lambda c: True if IIO(c) else None)
+            ok = (forced == ("const", True) or t is True) and free[0] == "param"
     R.check(ok, "tdms.TdmsFile.__init__::metadata only when index only", fi.where(), "index-only input forces read_metadata_only",
             "an index-only input is not forced to metadata-only reading")
     rc = prog.func("tdms.TdmsChannel._read_channel_data")
     cfg = ctx.cfg(rc)
-    guard = cfg.where(lambda n: n.kind == "test" and "is_index_file_only()" in unparse(n.ast))
-    reads = cfg.where(lambda n: any((call_name(c) or "").startswith("self._reader.read") for c in node_calls(n)))
-    ok = bool(guard) and all(cfg.dominated_by(r, lambda n: n in guard)[0] for r in reads) and any(
-        m.kind == "raisestmt" for g in guard for m, k in g.succ if k == "true")
-    R.check(ok and reads, "tdms.TdmsChannel._read_channel_data::refuses index-only", rc.where(), "raises before any data is read when only the index is open",
+    guard_nodes = nodes_reaching(ctx, rc, cfg, {"reader.TdmsReader.is_index_file_only"})
+    reads = cfg.where(lambda n: any(isinstance(c.func, ast.Attribute) and c.func.attr.startswith("read") and (dotted(c.func.value) or "").endswith("_reader") for c in node_calls(n)))
+    # the guard must be able to raise: the node is a test with a raising branch, or a helper call whose body raises under the predicate
+    def refuses(g):
+        if g.kind == "test":
+            return any(m.kind == "raisestmt" for m, k in g.succ if k == "true")
+        for c in node_calls(g):
+            for f, _k in resolve_call(prog, rc, rc.cls, c):
+                hcfg = ctx.cfg(f)
+                ts = hcfg.where(lambda n: n.kind == "test" and "is_index_file_only" in unparse(n.ast))
+                if any(m.kind == "raisestmt" for t in ts for m, k in t.succ if k == "true"):
+                    return True
+        return False
+    guard = [g for g in guard_nodes if refuses(g)]
+    ok = bool(guard) and all(cfg.dominated_by(r, lambda n: n in guard)[0] for r in reads)
+    R.check(ok and bool(reads), "tdms.TdmsChannel._read_channel_data::refuses index-only", rc.where(), "raises before any data is read when only the index is open",
             "lazy channel reads are not refused for index-only files")
 
 
 @rule("NC1", "a field that can be None is not used in arithmetic or ordering without a None test on that path", floor=1)
 def nc1(ctx, R):
+    """The data file size is None when only an index file is open.  Every ordering comparison / arithmetic operation of
+    TdmsReader is put in symbolic normal form (locals substituted, helpers inlined); for each occurrence of the field in
+    an operand position the conditions under which that occurrence is selected (enclosing ifs, conditional values,
+    short-circuit operands) are evaluated with the field taken to be None: the occurrence is guarded iff one of them is false."""
+    from .sym import Sym, eval_cond, show
     prog = ctx.prog
     cls = prog.cls("reader.TdmsReader")
     init = prog.func("reader.TdmsReader.__init__")
+    si = Sym(prog, init, init.cls, inline=False)
     nullable = set()
     for n in walk_body(init.node):
-        if isinstance(n, ast.Assign) and isinstance(n.value, ast.Constant) and n.value.value is None:
+        if isinstance(n, ast.Assign):
             for t in n.targets:
-                if isinstance(t, ast.Attribute) and dotted(t.value) == "self":
-                    nullable.add(t.attr)
-    targets = [a for a in nullable if a in ("_data_file_size",)]
-    if not targets:
+                if isinstance(t, ast.Attribute) and dotted(t.value) == "self" and t.attr == "_data_file_size":
+                    v = si.expr(n.value, {})
+                    if ("const", None) in _leaves(v):
+                        nullable.add(t.attr)
+    if not nullable:
         R.note("no nullable size field any more")
         R.ok("reader.TdmsReader::no nullable size field", init.where(), "nothing to check")
         return
-    for attr in targets:
-        full = "self." + attr
+    ORD = ("<", "<=", ">", ">=")
+    ARITH = ("+", "-", "*", "/", "//", "**")
+    for attr in sorted(nullable):
+        field = ("self", attr)
+
+        def oracle(c):
+            if c == ("cmp", "is", field, ("const", None)) or c == ("cmp", "==", field, ("const", None)):
+                return True
+            if c == field:
+                return False
+            return None
+        found = {}      # key -> list of (where, sink text, conds)
+        guarded = []
+        n_seen = [0]
+
+        def value_occ(v, conds, out):
+            if v == field:
+                out.append(conds)
+            elif isinstance(v, tuple) and v and v[0] == "phi":
+                value_occ(v[2], conds + [v[1]], out)
+                value_occ(v[3], conds + [("not", v[1])], out)
+
+        def traverse(c, conds, where, fname):
+            if not isinstance(c, tuple) or not c:
+                return
+            if c[0] in ("and", "or"):
+                prev = []
+                for op in c[1:]:
+                    traverse(op, conds + prev, where, fname)
+                    prev = prev + [op if c[0] == "and" else ("not", op)]
+                return
+            if c[0] == "phi":
+                traverse(c[1], conds, where, fname)
+                traverse(c[2], conds + [c[1]], where, fname)
+                traverse(c[3], conds + [("not", c[1])], where, fname)
+                return
+            operands = None
+            if c[0] == "cmp" and c[1] in ORD:
+                operands, kind = [c[2], c[3]], "ordering"
+            elif c[0] == "binop" and c[1] in ARITH and isinstance(c[2], tuple):
+                operands, kind = list(c[2]), "arithmetic"
+            if operands is not None:
+                for o in operands:
+                    occ = []
+                    value_occ(o, conds, occ)
+                    for cs in occ:
+                        n_seen[0] += 1
+                        vals = [eval_cond(x, oracle) for x in cs]
+                        if any(v is False for v in vals):
+                            guarded.append((where, show(c)[:80]))
+                        else:
+                            consts = sorted({y[1] for x in cs for y in _collect_consts(x)})
+                            key = "reader.TdmsReader::%s is None where it is ordered/added, on the path selected by %s" % (
+                                attr, ", ".join("== %d" % k for k in consts) if consts else "no constant test")
+                            found.setdefault(key, []).append((where, fname, kind, show(c)[:100]))
+            for y in c[1:]:
+                if isinstance(y, tuple):
+                    traverse(y, conds, where, fname)
         for name, fi in sorted(cls.methods.items()):
             if name == "__init__":
                 continue
-            uses = [x for x in walk_body(fi.node) if isinstance(x, ast.Attribute) and dotted(x) == full and isinstance(x.ctx, ast.Load)]
-            if not uses:
-                continue
-            cfg = ctx.cfg(fi)
-            guard = lambda n: n.kind == "test" and (full + " is not None") in unparse(n.ast)
-            # direct ordering / arithmetic uses
-            for node in cfg.where(lambda n: n.ast is not None and n.kind in ("stmt", "test", "return")):
-                a = node.ast
-                for x in walk_shallow(a):
-                    direct = None
-                    if isinstance(x, ast.Compare) and not isinstance(x.ops[0], (ast.Is, ast.IsNot, ast.Eq, ast.NotEq)) and full in unparse(x):
-                        direct = x
-                    if isinstance(x, ast.BinOp) and full in unparse(x):
-                        direct = x
-                    if direct is None:
+            sy = Sym(prog, fi, cls)
+            seen_c = set()
+            for st in walk_body(fi.node):
+                exprs = []
+                if isinstance(st, (ast.Assign, ast.AugAssign, ast.Return, ast.Expr)) and st.value is not None:
+                    exprs = [st.value]
+                elif isinstance(st, (ast.If, ast.While)):
+                    exprs = [st.test]
+                elif isinstance(st, ast.Assert):
+                    exprs = [st.test]
+                for e in exprs:
+                    if not any(isinstance(x, (ast.Compare, ast.BinOp)) for x in ast.walk(e)) and not any(isinstance(x, ast.Call) for x in ast.walk(e)):
                         continue
-                    # guarded within the same boolean expression?
-                    same_expr_guard = isinstance(a, ast.BoolOp) and (full + " is not None") in unparse(a) or (
-                        node.kind == "test" and (full + " is not None") in unparse(a))
-                    ok, _ = cfg.dominated_by(node, guard)
-                    R.check(ok or same_expr_guard, "reader.TdmsReader.%s::%s in `%s`" % (name, attr, unparse(direct)[:40]), fi.where(node.ast),
-                            "guarded by an `is not None` test", "%s may be None here (only an index file is open) and is used in `%s`" % (full, unparse(direct)))
-            # indirect: local assigned from the field, later ordered/added
-            for d in cfg.where(lambda n: n.kind == "stmt" and isinstance(n.ast, ast.Assign) and dotted(n.ast.value) == full and isinstance(n.ast.targets[0], ast.Name)):
-                lv = d.ast.targets[0].id
-                okd, _ = cfg.dominated_by(d, guard)
-                if okd:
-                    continue
-                redefs = lambda n: n is not d and n.kind == "stmt" and isinstance(n.ast, ast.Assign) and any(isinstance(t, ast.Name) and t.id == lv for t in n.ast.targets)
-                lguard = lambda n: n.kind == "test" and ("%s is not None" % lv) in unparse(n.ast)
-                r = cfg.reach([d], avoid=lambda n: redefs(n) or lguard(n), follow_exc=False)
-                bad = None
-                for node in sorted(r, key=lambda n: n.lineno):
-                    if node is d or node.ast is None:
+                    env, guards = sy.env_at(st if not isinstance(st, (ast.If, ast.While)) else e)
+                    c = sy.expr(e, env)
+                    if not _mentions(c, field):
                         continue
-                    tgt = node.ast if node.kind != "for" else node.ast.iter
-                    for x in walk_shallow(tgt):
-                        if isinstance(x, ast.Compare) and not isinstance(x.ops[0], (ast.Is, ast.IsNot, ast.Eq, ast.NotEq)) and lv in _names(x):
-                            bad = (node, x)
-                        if isinstance(x, ast.BinOp) and lv in _names(x) and not isinstance(x.op, ast.Mod):
-                            bad = bad or (node, x)
-                    if bad:
-                        break
-                key = "reader.TdmsReader.%s::%s via %s" % (name, attr, lv)
-                if bad:
-                    R.violation(key, fi.where(bad[0].ast), "`%s = %s` takes the value None when only an index file is open (elsewhere in this function the field "
-                                "is tested with `is not None`), and `%s` then orders/adds it: opening a .tdms_index alone whose last lead-in carries the "
-                                "'length unknown' marker raises TypeError instead of giving the metadata" % (lv, full, unparse(bad[1])),
-                                path=cfg.describe_path(cfg.path_to(bad[0])))
-                else:
-                    R.ok(key, fi.where(d.ast), "value is not ordered or added before being re-tested")
+                    traverse(c, list(guards), fi.where(e), fi.qual)
+        for key, sites in sorted(found.items()):
+            where, fname, kind, text = sites[0]
+            R.violation(key, where, "`self.%s` is None when only an index file is open (the constructor stores None) and reaches %s unguarded: %s. "
+                        "Opening a .tdms_index alone whose last lead-in carries the 'length unknown' marker raises TypeError instead of giving the metadata" % (
+                            attr, " and ".join(sorted({k for _w, _f, k, _t in sites})), "; ".join("%s in %s @ %s" % (t, f, w) for w, f, _k, t in sites[:4])))
+        for where, text in guarded[:6]:
+            R.ok("reader.TdmsReader::%s guarded in `%s`" % (attr, text[:50]), where, "selected only when the field is not None")
+        if n_seen[0] == 0:
+            raise AnchorMissing("reader.TdmsReader: no ordering/arithmetic use of %s found" % attr)
+
+
+def _mentions(c, leaf):
+    if c == leaf:
+        return True
+    if isinstance(c, tuple):
+        return any(_mentions(y, leaf) for y in c)
+    return False
+
+
+def _collect_consts(c):
+    """integer constants compared for equality inside a canonical condition"""
+    out = []
+    if isinstance(c, tuple) and c:
+        if c[0] == "cmp" and c[1] in ("==", "!="):
+            for o in (c[2], c[3]):
+                if isinstance(o, tuple) and o and o[0] == "const" and isinstance(o[1], int) and not isinstance(o[1], bool):
+                    out.append(o)
+        for y in c[1:]:
+            out.extend(_collect_consts(y))
+    return out
 
 
 @rule("KC1", "defragment copies every object with raw data, raw timestamps and its own name/properties", floor=9)
